@@ -183,6 +183,8 @@ const prelude = `(set-option :produce-models true)
 (declare-fun errIs (Int Int) Bool)
 (declare-fun errClean (Int) Bool)
 (declare-fun errMsg (Int) Str)
+(declare-fun urlStr (Int) Str)
+(define-fun validI ((x Iface)) Bool (and ((_ is mkI) x) (=> ((_ is pRef) (ipay x)) (not (= (pref (ipay x)) 0)))))
 `
 
 func litInt(t string) (int64, bool) {
